@@ -164,7 +164,7 @@ class _FakeResponse:
             raise aiohttp.ClientResponseError(None, (), status=400, message='by contract')
 
 
-@harness('N1', targets='kopf._cogs.clients.errors.check_response', props=['C12', 'C19'],
+@harness('N1', targets='kopf._cogs.clients.errors.check_response', props=['C12', 'C19', 'C08', 'C06', 'C01', 'C03', 'C05', 'C07', 'C13'],
          clauses=['ok_passes', 'status_table', 'body_errors_contained', 'carries_status_headers_details',
                   'payload_handling'],
          canaries=['canary.never_raises', 'canary.always_raises'],
@@ -268,7 +268,7 @@ class _Wait:
         return True
 
 
-@harness('T1', targets='kopf._cogs.aiokits.aiotime.sleep', props=['C07', 'C10', 'C11', 'C12', 'C03', 'C13'],
+@harness('T1', targets='kopf._cogs.aiokits.aiotime.sleep', props=['C07', 'C10', 'C11', 'C12', 'C03', 'C13', 'C02', 'C05', 'C06', 'C08', 'C09', 'C14', 'C20'],
          clauses=['no_delay_returns_at_once', 'already_set_returns_m_at_once', 'timeout_returns_none_after_m',
                   'woken_returns_remaining', 'suspends_at_most_once', 'frame', 'cancellation_propagates'],
          canaries=['canary.never_sleeps', 'canary.always_none'],
@@ -535,7 +535,7 @@ def _new_exc(cls, *args):
     return e
 
 
-@harness('N2', targets='kopf._cogs.clients.api.request', props=['C12', 'C19', 'C13', 'C03'],
+@harness('N2', targets='kopf._cogs.clients.api.request', props=['C12', 'C19', 'C13', 'C03', 'C08', 'C06'],
          clauses=['retried_kinds', 'attempts_bounded', 'sleep_is_backoff', 'never_less_than_retry_after', 'retry_after_policy',
                   'escalates_at_once', 'session_closed_reauth', 'success_returns_response', 'same_request',
                   'url_resolved_against_server', 'timeout_explicit_or_configured',
